@@ -178,7 +178,8 @@ theorem C16_symmetric_perm (m : Manifest) (p p' : List Nat) (h : Host) (hwf : h.
 
 /-- **C16 (interleaving).** Take any host `h0` (well formed, nothing on it attributed to the
     containers in question) and any admissible interleaving of starts, finishes, repeated finishes
-    and interrupted finishes of any number of containers (`Valid`: a container starts when its
+    and interrupted finishes (before the release of the allocation, or by a fault at any of the
+    removal calls: `cutfinish m k`) of any number of containers (`Valid`: a container starts when its
     unique name is unused and is granted an address no live container holds — addresses and
     instance names may be reused afterwards; a finish loads the manifest its start saved).  Then at
     every point of the run the part of the rules directory, of the endpoints directory and of both
@@ -363,13 +364,19 @@ example : ¬ OwnedFresh { demoHost with vring := [7, 2] } demoA ∧
 
 /-- an admissible interleaving: overlapping lifetimes, interrupted + repeated finish, address reuse -/
 def demoOps : List Op :=
-  [.start demoA, .start demoB, .refinish demoA, .finish demoA, .finish demoA, .start demoC,
+  [.start demoA, .start demoB, .cutfinish demoA 3, .refinish demoA, .finish demoA, .finish demoA, .start demoC,
    .finish demoA, .finish demoB, .finish demoC, .finish demoB]
 
 example : Valid ⟨demoHost, []⟩ demoOps ∧ (∀ op ∈ demoOps, OwnedFresh demoHost op.man) := by decide
 example : (sysRun ⟨demoHost, []⟩ (demoOps.take 2)).live = [demoA, demoB] ∧
     (sysRun ⟨demoHost, []⟩ (demoOps.take 2)).host.rules.length = 12 := by decide
 example : (sysRun ⟨demoHost, []⟩ demoOps).live = [] := by decide
+/-- the clean-up of `demoA` interrupted at its fourth removal: three entries gone, allocation kept -/
+example : (sysRun ⟨demoHost, []⟩ (demoOps.take 3)).live = [demoA, demoB] ∧
+    (sysRun ⟨demoHost, []⟩ (demoOps.take 3)).host.rules.length +
+      (sysRun ⟨demoHost, []⟩ (demoOps.take 3)).host.specs.length <
+    (sysRun ⟨demoHost, []⟩ (demoOps.take 2)).host.rules.length +
+      (sysRun ⟨demoHost, []⟩ (demoOps.take 2)).host.specs.length := by decide
 
 /-- port allocation: 40960 is in use and skipped; tcp endpoint, then the ephemeral tcp port -/
 example : (allocatePorts ⟨[40960], []⟩ [40960, 40961, 40962, 40963] [40970, 40971]
